@@ -66,6 +66,7 @@ class Tr:
         self.nloops = 0
         self.ret = spec['ret']
         self.written = set()                            # heap fields this function writes (directly or through callees)
+        self.aliased = set()                            # local names bound to a list that another name may share
         self.OBJ = spec.get('obj_type', 'obj')          # Coq type of an object reference
         self.GET = spec.get('heap_get', 'get')          # heap accessors
         self.UPD = spec.get('heap_upd', 'upd')
@@ -339,6 +340,11 @@ class Tr:
         if name == 'id' and len(e.args) == 1 and not e.keywords and self.spec.get('heap'):
             # id(obj): the identity of a heap object is its number
             return self.expr(e.args[0], env, lambda a, ta: k(self.coerce(a, ta, 'obj'), 'obj'))
+        if name == 'range' and len(e.args) == 3 and not e.keywords and ast.unparse(e.args[2]) == '-1' and ast.unparse(e.args[1]) == '-1':
+            # range(hi, -1, -1): hi, hi-1, .., 0
+            def down(hi, thi):
+                return k('(map Z.of_nat (rev (seq 0 (Z.to_nat (%s + 1)))))' % self.coerce(hi, thi, 'Z'), ('list', 'Z'))
+            return self.expr(e.args[0], env, down)
         if name == 'reversed' and len(e.args) == 1 and not e.keywords:
             def rev_(l, tl):
                 if not (isinstance(tl, tuple) and tl[0] == 'list'):
@@ -911,6 +917,17 @@ class Tr:
                 return self.expr(recv, env, with_recv)
         return None
 
+    def own_list(self, name):
+        """`name.append(x)` / `name.remove(x)` / `name += l` change a list IN PLACE; the translation rebinds the name.  The two
+        agree only if no other name shares the list: refused for a local that was bound to another name's or attribute's
+        list, and for a parameter that is not given back as part of the state."""
+        if name in self.aliased:
+            raise Unsupported('%s is changed in place but was bound to a list that another name may share' % name)
+        if name in self.spec.get('params', {}) and name not in self.state_names():
+            t = self.spec['params'][name][1]
+            if isinstance(t, tuple) and t[0] == 'list' and not self.spec.get('rebinds_param_lists'):
+                raise Unsupported('the parameter %s is changed in place (the caller would see it): it must be part of the state' % name)
+
     def grows(self, node):
         """name of the local list / set that the statement-level call `name.append(x)` / `name.add(x)` grows"""
         if isinstance(node, ast.Expr) and isinstance(node.value, ast.Call) and isinstance(node.value.func, ast.Attribute) \
@@ -926,6 +943,10 @@ class Tr:
             for n in ast.walk(s):
                 if isinstance(n, ast.Call) and ast.unparse(n.func) in self.spec.get('state_calls', {}):
                     for sn in self.state_names():
+                        if sn not in names:
+                            names.append(sn)
+                if isinstance(n, ast.Call) and ast.unparse(n.func) in self.spec.get('rebind_calls', {}):
+                    for sn in self.spec['rebind_calls'][ast.unparse(n.func)][2]:
                         if sn not in names:
                             names.append(sn)
                 m = self.mutator_of(n)
@@ -1054,6 +1075,29 @@ class Tr:
                 first = ast.Assign(targets=[ast.Name(id=tmpn, ctx=ast.Store())], value=inner[0])
                 second = ast.Assign(targets=s.targets, value=_Sub().visit(copy.deepcopy(val)))
                 return self.block([first, second] + rest, env, fall, loop)
+        if isinstance(s, ast.Expr) and isinstance(val, ast.Call) and ast.unparse(val.func) in self.spec.get('rebind_calls', {}):
+            # a call of a translated function that changes objects which this function holds in local variables: the spec
+            # gives the Coq call (with ${name} for current values, $0 $1 .. for the translated arguments at the given
+            # positions), the pattern of its result (with %name for the locals that get a new value) and checks the arguments
+            tmpl, pattern, names, arg_idx, arg_types, must = self.spec['rebind_calls'][ast.unparse(val.func)]
+            if val.keywords:
+                raise Unsupported('keywords in %s' % ast.unparse(val))
+            for pos, text in must.items():
+                if pos >= len(val.args) or ast.unparse(val.args[pos]) != text:
+                    raise Unsupported('%s: argument %d must be %s' % (ast.unparse(val.func), pos, text))
+
+            def after_rebind(atoms):
+                call = self.fill(tmpl, env)
+                for i_, a_ in enumerate(atoms):
+                    call = call.replace('$%d' % i_, a_)
+                env2 = {k_: v_ for k_, v_ in env.items() if not (isinstance(k_, tuple) and k_[0] in ('$field', '$sub'))}
+                pat = pattern
+                for n_ in names:
+                    nn = self.fresh(n_)
+                    pat = pat.replace('%' + n_, nn)
+                    env2[n_] = (nn, env[n_][1])
+                return "(do '%s <- %s; %s)" % (pat, call, nxt(env2))
+            return self.args([val.args[i] for i in arg_idx], arg_types, env, after_rebind)
         if isinstance(s, ast.Expr) and isinstance(val, ast.Call) and ast.unparse(val.func) in self.spec.get('state_calls', {}):
             # a call that takes every state variable and gives all of them back (the function itself, or a translated one)
             fn, idx, types = self.spec['state_calls'][ast.unparse(val.func)]
@@ -1118,6 +1162,7 @@ class Tr:
             # name.remove(x) on a local list: the first occurrence goes, ValueError when there is none
             lname = s.value.func.value.id
             lt = self.local_type(lname)
+            self.own_list(lname)
 
             def removed(a, ta):
                 a2 = self.coerce(a, ta, lt[1])
@@ -1127,6 +1172,7 @@ class Tr:
         g = self.grows(s)
         if g is not None:
             t = self.local_type(g)
+            self.own_list(g)
 
             def grown(a, ta):
                 return self.bind(g, '(%s ++ [%s])' % (env[g][0], self.coerce(a, ta, t[1])), t, env, nxt)
@@ -1175,12 +1221,25 @@ class Tr:
             tgt = s.targets[0] if isinstance(s, ast.Assign) else s.target
             if (isinstance(s, ast.Assign) and len(s.targets) != 1) or not isinstance(tgt, ast.Name) or s.value is None:
                 raise Unsupported('assignment form %s' % ast.unparse(s))
-            return self.expr(s.value, env, lambda a, ta: self.bind(tgt.id, a, ta, env, nxt))
+
+            def bound(a, ta):
+                shares = isinstance(s.value, (ast.Name, ast.Attribute, ast.Subscript)) and isinstance(ta, tuple) and ta[0] == 'list'
+                if shares:
+                    self.aliased.add(tgt.id)            # x = y / x = o.lst: two names for one list
+                else:
+                    self.aliased.discard(tgt.id)
+                return self.bind(tgt.id, a, ta, env, nxt)
+            return self.expr(s.value, env, bound)
         if isinstance(s, ast.AugAssign):
             if not isinstance(s.target, ast.Name):
                 raise Unsupported('augmented assignment to %s' % ast.unparse(s.target))
             e2 = ast.BinOp(left=ast.Name(id=s.target.id, ctx=ast.Load()), op=s.op, right=s.value)
-            return self.expr(e2, env, lambda a, ta: self.bind(s.target.id, a, ta, env, nxt))
+
+            def aug(a, ta):
+                if isinstance(ta, tuple) and ta[0] == 'list':
+                    self.own_list(s.target.id)          # list += ... extends the list in place
+                return self.bind(s.target.id, a, ta, env, nxt)
+            return self.expr(e2, env, aug)
         if isinstance(s, ast.If) and self.spec.get('joins') and rest:
             # long functions: what follows the `if` becomes a local function of the variables the branches assign (a join
             # point), so that it is emitted once; what a branch learnt about an Optional is not carried past the join
